@@ -13,7 +13,7 @@ from ..report import AnalysisError
 from ..srcmodel import norm
 from . import tr
 from ..tracer import Tracer
-from .common import node_obj
+from .common import node_obj, fde_guard
 
 
 def _fde(repo, stubs=(), stub=None):
@@ -740,6 +740,22 @@ def none_scalar_table(repo, run, rule):
         r = call(name, me)
         if r.raised or r.ret != 'None':
             bad.append('%s gives %r, expected the text of None' % (name, r.raised or r.ret))
+    if repo.has_func('ConfigNone.__new__'):
+        for v in ('x', 0, False):
+            try:
+                got = _fde(repo).call(repo.func('ConfigNone.__new__'), Obj('cls', 'type'), v).raised
+            except Unsupported as e:
+                if 'object.__new__' not in str(e):
+                    raise AnalysisError('ConfigNone.__new__: finite-domain evaluator refused: %s' % e)
+                got = None      # the allocation was reached
+            if got != 'ValueError':
+                bad.append('a null payload constructed from %r %s, expected ValueError (the value would silently become null)' % (v, 'raises ' + got if got else 'is accepted'))
+        try:
+            r = _fde(repo).call(repo.func('ConfigNone.__new__'), Obj('cls', 'type'), None)
+            if r.raised:
+                bad.append('a null payload constructed from None raises %s' % r.raised)
+        except Unsupported:
+            pass     # the allocation itself (object.__new__) is outside the evaluator: reaching it means nothing was raised
     fi = repo.func('ConfigNone.__bool__')
     if bad:
         run.violation(rule, fi, 'ConfigNone', '; '.join(bad[:3]))
@@ -1422,6 +1438,108 @@ def constructor_arguments(repo, run, rule):
             run.ok(rule, (e.fi.file, e.make.lineno, e.fi.qualname), '%s: _make_node(%s) returned' % (tag, ', '.join(got)))
     if n < 25:
         raise AnalysisError('%s: only %d constructors with a _make_node call found' % (rule, n))
+
+
+def xref_chain_table(repo, run, rule):
+    """XRefNode.on_evaluate_impl evaluated over reference chains of length 1..3 (the context is a stand-in): every link is looked
+    up through ctx.get_node(<the reference node>), the node the chain ends in is what gets evaluated, under the name of the last
+    reference (its value is cached / reported under that name), and its value is the reference's value; a missing target and a
+    chain that comes back to a visited reference are ValueErrors"""
+    fi = repo.func('XRefNode.ayns.on_evaluate_impl')
+    bad = []
+    rows = 0
+    for n in (1, 2, 3):
+        for end in ('node', 'missing', 'cycle'):
+            xs = [node_obj('x%d' % i, 'XRefNode') for i in range(1, n + 1)]
+            tgt = node_obj('target', 'ConfigScalar')
+            nxt = {}
+            for i, x in enumerate(xs):
+                nxt[x.name] = xs[i + 1] if i + 1 < n else (tgt if end == 'node' else (None if end == 'missing' else xs[0]))
+            log = []
+
+            def stub(name, recv, args, kwargs, log=log, nxt=nxt):
+                if name == 'get_node':
+                    a = args[0] if args else None
+                    log.append(('get', getattr(a, 'name', a)))
+                    r_ = nxt.get(getattr(a, 'name', None))
+                    if r_ is None:
+                        raise Raised('KeyError')
+                    return r_
+                if name == 'evaluate_node':
+                    log.append(('eval', getattr(args[0], 'name', args[0]) if args else None, repr(kwargs.get('prefix', args[1] if len(args) > 1 else None))))
+                    return 'VALUE'
+                if name == 'get_str_path':
+                    return 'the.path'
+                raise AnalysisError('XRefNode.on_evaluate_impl: unexpected call of %s' % name)
+            f = FDE(repo, stubs={'get_node', 'evaluate_node', 'get_str_path'}, stub=stub)
+            r = fde_guard(lambda: f.call(fi, xs[0], ['the', 'path'], Obj('ctx', 'EvalContext')))
+            rows += 1
+            what = 'a chain of %d reference(s) ending in %s' % (n, {'node': 'a plain node', 'missing': 'a missing path', 'cycle': 'its first reference again'}[end])
+            gets = [x[1] for x in log if x[0] == 'get']
+            evs = [x for x in log if x[0] == 'eval']
+            if end == 'node':
+                if r.raised:
+                    bad.append('%s raises %s' % (what, r.raised))
+                elif gets != [x.name for x in xs]:
+                    bad.append('%s: looked up %s, expected every reference of the chain once (%s)' % (what, gets, [x.name for x in xs]))
+                elif len(evs) != 1 or evs[0][1] != 'target':
+                    bad.append('%s: evaluates %s, expected the node the chain ends in' % (what, [e[1] for e in evs]))
+                elif 'x%d' % n not in evs[0][2]:
+                    bad.append('%s: the target is evaluated under the name %s, expected the text of the last reference (x%d)' % (what, evs[0][2], n))
+                elif r.ret != 'VALUE':
+                    bad.append('%s: the value of the target is not what the reference evaluates to (%r)' % (what, r.ret))
+            else:
+                if r.raised != 'ValueError':
+                    bad.append('%s: %s, expected ValueError' % (what, 'raises ' + r.raised if r.raised else 'evaluates to %r' % (r.ret,)))
+    run.table(rule, rows, 'reference chains of length 1..3 x (plain node / missing / cycle)')
+    if bad:
+        run.violation(rule, fi, 'reference chain table', bad[0] + (' [%d rows]' % len(bad) if len(bad) > 1 else ''), witness=bad[:4])
+    else:
+        run.ok(rule, fi, 'reference chains (%d rows)' % rows, 'every link looked up, target evaluated under the last reference\'s name, missing / circular -> ValueError')
+
+
+def small_node_tables(repo, run, rule, which):
+    """evaluated tables of one-line node methods: `required` - a !required node takes no value (ValueError otherwise) and hands the
+    remaining arguments to the base constructor; `import` - an !import node evaluates to import_name(<its text>) after the safety
+    check; `function-bool` - a function node is true exactly when it has a target"""
+    bad = []
+    if which == 'required':
+        fi = repo.func('RequiredNode.__init__')
+        for v in ('x', 0, None):
+            log = []
+            f = FDE(repo, stubs={'__init__'}, stub=lambda n, recv, a, k, log=log: log.append((list(a), dict(k))))
+            r = fde_guard(lambda: f.call(fi, node_obj('r', 'RequiredNode'), v, idx=3))
+            if v is None:
+                if r.raised or log != [([], {'idx': 3})]:
+                    bad.append('a !required node without a value: %s' % ('raises ' + r.raised if r.raised else 'base constructor calls %s, expected one with the remaining arguments' % log))
+            elif r.raised != 'ValueError':
+                bad.append('a !required node given the value %r %s, expected ValueError' % (v, 'raises ' + r.raised if r.raised else 'is accepted (the value is dropped silently)'))
+    elif which == 'import':
+        fi = repo.func('ImportNode.ayns.on_evaluate_impl')
+        log = []
+
+        def stub(n, recv, a, k, log=log):
+            log.append((n, [repr(x) for x in a]))
+            return 'IMPORTED' if n == 'import_name' else None
+        f = FDE(repo, stubs={'_require_safe', 'import_name'}, stub=stub)
+        r = fde_guard(lambda: f.call(fi, node_obj('imp', 'ImportNode'), ['p'], Obj('ctx', 'EvalContext')))
+        names = [x[0] for x in log]
+        if r.raised or names != ['_require_safe', 'import_name'] or 'str(imp)' not in log[1][1][0] or len(log[1][1]) != 1:
+            bad.append('an !import node: %s, expected the safety check followed by import_name(str(self))' % ('raises ' + r.raised if r.raised else 'calls %s' % log))
+        elif r.ret != 'IMPORTED':
+            bad.append('an !import node evaluates to %r, not to the imported entity' % (r.ret,))
+    elif which == 'function-bool':
+        fi = repo.func('FunctionNode.__bool__')
+        for v, want in (('f', True), ('', False), (None, False)):
+            r = fde_guard(lambda: FDE(repo).call(fi, node_obj('fn', 'CallNode', _func=v)))
+            if r.raised or r.ret is not want:
+                bad.append('bool(function node with target %r) is %r, expected %r (merging tests the truth of nodes)' % (v, r.raised or r.ret, want))
+    else:
+        raise AnalysisError('small_node_tables: %s' % which)
+    if bad:
+        run.violation(rule, fi, fi.qualname, '; '.join(bad[:2]))
+    else:
+        run.ok(rule, fi, fi.qualname + ' evaluated')
 
 
 def tag_spec(repo, run, rule, tags):
